@@ -69,7 +69,7 @@ def _compatible(pal, steps):
     calls = {s_["call"] for s_ in steps}
     if idp == "ctrl" and calls & {"rt_tsv", "rt_hdf5", "subset_read", "summary"}:
         idp = "unicode"                 # control characters are in the domain of the JSON property only
-    if valp == "scale_tiny" and calls - {"norm", "pa", "read", "sort_order", "transpose", "sort", "filter"}:
+    if valp == "scale_tiny" and calls - {"norm", "pa", "read", "sort_order", "transpose", "sort", "filter", "remove_empty", "head", "update_ids", "copy", "align_df", "align_to"}:
         valp = "scale_down"             # the subnormal scale is exact for quotients and presence only
     if any(s_["call"] == "summary" and s_["args"].get("kind", "").startswith("cli_") for s_ in steps):
         return [idp, "plain"]           # printed reports are parsed at face value
